@@ -24,6 +24,7 @@ class Report:
         self.counts = {}       # free-form measured counts
         self.assumptions = []
         self.selftest = None
+        self.only = None       # when set: keep only obligations whose rule id starts with one of these
 
     # -- recording -------------------------------------------------------
     def rule(self, rid, text):
@@ -36,6 +37,8 @@ class Report:
         """Record one obligation.  `instance` names the rule instance (stable
         across line moves); `construct` is the normalised source text of the
         offending construct (defaults to `node`)."""
+        if self.only is not None and not any(rule == p or rule.startswith(p + ".") or rule.startswith(p) for p in self.only):
+            return bool(ok)
         if func is not None:
             self.analysed(func)
         line = getattr(node, "lineno", None) if node is not None else None
@@ -49,6 +52,19 @@ class Report:
             "line": line, "construct": construct or instance,
         })
         return bool(ok)
+
+    def keep(self, *prefixes):
+        """Context manager: record only obligations of the given rule ids."""
+        rep = self
+
+        class _K:
+            def __enter__(self_):
+                self_.old = rep.only
+                rep.only = list(prefixes) if prefixes else None
+
+            def __exit__(self_, *a):
+                rep.only = self_.old
+        return _K()
 
     def note(self, text):
         self.notes.append(text)
